@@ -37,6 +37,14 @@ patch("internal/runtime/maps/map.go", [
 patch("runtime/rand.go", [
     ("func rand() uint64 {\n", "func rand() uint64 {\n\tif verifDet != 0 {\n\t\tverifRandState += 0x9E3779B97F4A7C15\n\t\tz := verifRandState\n\t\tz = (z ^ (z >> 30)) * 0xBF58476D1CE4E5B9\n\t\tz = (z ^ (z >> 27)) * 0x94D049BB133111EB\n\t\treturn z ^ (z >> 31)\n\t}\n", 1),
 ])
+# sysmon asks a goroutine that has held its P for 10 ms of *wall-clock* time to yield at its
+# next function call (cooperative preemption, independent of asyncpreemptoff). On a loaded
+# machine a goroutine is easily descheduled by the OS for longer than that, which reorders
+# un-instrumented goroutines between two runs of the same schedule. While the deterministic
+# mode is on, the time slice is effectively infinite.
+patch("runtime/proc.go", [
+    ("} else if pd.schedwhen+forcePreemptNS <= now {", "} else if verifDet == 0 && pd.schedwhen+forcePreemptNS <= now {", 1),
+])
 for rel in ("math/rand/rand.go", "math/rand/v2/rand.go"):
     patch(rel, [("//go:linkname runtime_rand runtime.rand", "//go:linkname runtime_rand runtime.verifUserRand", 1)])
 add("runtime/verif_runtime.go", '''package runtime
